@@ -1496,9 +1496,29 @@ fn fuzz_line(rng: &mut Rng, seeds: &[String]) -> (String, bool) {
             "ponderhit".into(),
         ]
     };
-    let base = rng.pick(&well_formed).clone();
+    // one line in five: configuration at the ends of its advertised range, or a go whose clocks
+    // hold a few milliseconds (the arithmetic of the time manager at its lower end); half of
+    // these stay as they are, so that they take effect and meet later lines of the session
+    let mut gentle = false;
+    let base = if rng.chance(1, 5) {
+        gentle = rng.chance(1, 2);
+        let adv = ADVERTISED.get().map_or(&[][..], Vec::as_slice);
+        if !adv.is_empty() && rng.chance(1, 2) {
+            rng.pick(adv).clone()
+        } else {
+            let mut l = format!("go wtime {} btime {}", rng.below(7), rng.below(7));
+            match rng.below(4) {
+                0 => l.push_str(&format!(" winc {} binc {}", rng.below(3), rng.below(3))),
+                1 => l.push_str(&format!(" movestogo {}", rng.below(3))),
+                _ => {}
+            }
+            l
+        }
+    } else {
+        rng.pick(&well_formed).clone()
+    };
     let mut toks: Vec<String> = base.split_whitespace().map(ToString::to_string).collect();
-    let n_mut = rng.below(4);
+    let n_mut = if gentle { 0 } else { rng.below(4) };
     for _ in 0..n_mut {
         if toks.is_empty() {
             break;
@@ -1526,7 +1546,7 @@ fn fuzz_line(rng: &mut Rng, seeds: &[String]) -> (String, bool) {
     }
     // character-level damage inside one token (moves, numbers, keywords): multi-byte characters at
     // every offset, dropped / doubled / swapped characters
-    if rng.chance(1, 3) && !toks.is_empty() {
+    if !gentle && rng.chance(1, 3) && !toks.is_empty() {
         let moves_at = toks.iter().position(|t| t == "moves");
         let i = match moves_at {
             Some(m) if m + 1 < toks.len() && rng.chance(3, 4) => m + 1 + rng.below((toks.len() - m - 1) as u64) as usize,
@@ -1573,7 +1593,7 @@ fn fuzz_line(rng: &mut Rng, seeds: &[String]) -> (String, bool) {
             toks = t;
         }
     }
-    let line = match rng.below(20) {
+    let line = match if gentle { 19 } else { rng.below(20) } {
         0 => String::new(),
         1 => "   ".to_string(),
         2 => "\t".to_string(),
@@ -1684,7 +1704,67 @@ fn minimise(ctx: &Ctx, line: &str) -> String {
     toks.join(" ")
 }
 
+/// setoption lines for what the engine itself advertises in its answer to `uci`: every option with
+/// values at and around both ends of its declared range (an option is configuration that stays
+/// in force: what it breaks shows in a later line of the same session).
+static ADVERTISED: std::sync::OnceLock<Vec<String>> = std::sync::OnceLock::new();
+
+fn learn_options(ctx: &Ctx) -> Vec<String> {
+    let mut lines = Vec::new();
+    let Some(mut e) = spawn(ctx, &[]) else { return lines };
+    e.send("uci");
+    let _ = e.wait_out(READY_TIMEOUT_MS, "uciok");
+    for ev in &e.log {
+        if ev.src != Src::Out {
+            continue;
+        }
+        let Some(rest) = ev.line.strip_prefix("option name ") else { continue };
+        let Some((name, decl)) = rest.split_once(" type ") else { continue };
+        let t: Vec<&str> = decl.split_whitespace().collect();
+        let field = |k: &str| t.iter().position(|x| *x == k).and_then(|i| t.get(i + 1)).and_then(|v| v.parse::<i64>().ok());
+        match t.first().copied() {
+            Some("spin") => {
+                let mut vals = Vec::new();
+                if let Some(min) = field("min") {
+                    vals.extend([min, min + 1, min + 2, min + 3, min - 1]);
+                }
+                if let Some(max) = field("max") {
+                    vals.extend([max, max - 1, max + 1]);
+                }
+                if let Some(d) = field("default") {
+                    vals.push(d);
+                }
+                vals.sort_unstable();
+                vals.dedup();
+                for v in vals {
+                    lines.push(format!("setoption name {name} value {v}"));
+                }
+            }
+            Some("check") => {
+                lines.push(format!("setoption name {name} value true"));
+                lines.push(format!("setoption name {name} value false"));
+            }
+            Some("button") => lines.push(format!("setoption name {name}")),
+            Some("combo") => {
+                for (i, x) in t.iter().enumerate() {
+                    if *x == "var" {
+                        if let Some(v) = t.get(i + 1) {
+                            lines.push(format!("setoption name {name} value {v}"));
+                        }
+                    }
+                }
+            }
+            _ => lines.push(format!("setoption name {name} value x")),
+        }
+    }
+    e.send("quit");
+    let _ = e.wait_exit(1_000);
+    out::count("C15.setoption_lines_from_advertised_options", lines.len() as u64);
+    lines
+}
+
 pub fn run_c15(ctx: &Ctx) -> Result<(), String> {
+    let _ = ADVERTISED.set(learn_options(ctx));
     let seeds: Vec<String> = corpus::all_seeds()?;
     let n = if ctx.tier == "thorough" { 8_000 } else { 320 };
     pool(ctx, n, |ctx, idx| c15_session(ctx, idx, &seeds));
